@@ -236,6 +236,7 @@ def geometry (eb : Bound α) (box : Bound α) : Geom α → Option (Option (Geom
      | some l => some (some (.multiPolygon l)))
   | .bound a b =>
     if !(box.intersects ⟨a, b⟩) then some none else
+    if (⟨a, b⟩ : Bound α).isEmpty then some none else   -- `if g.IsEmpty() { return nil }`
     let r := clipBound box ⟨a, b⟩
     if r.isEmpty then some none else some (some (.bound r.lo r.hi))
   | .collection gs =>
